@@ -755,6 +755,9 @@ class EDACScheme(Scheme):
             TVF_SOLID_PROPS += ['xn', 'yn', 'zn', 'uhat', 'vhat', 'what']
         extra_props = TVF_SOLID_PROPS if self.use_tvf else EDAC_SOLID_PROPS
         all_solid_props = DEFAULT_PROPS.union(extra_props)
+        if self.inviscid_solids:
+            # The slip wall equations need the wall normals.
+            all_solid_props = all_solid_props.union(['xn', 'yn', 'zn'])
         for solid in (self.solids+self.inviscid_solids):
             pa = particle_arrays[solid]
             self._ensure_properties(pa, all_solid_props, clean)
